@@ -531,3 +531,34 @@ S('XDT_setitem_splice_full_test', ['C14', 'C15'], 'array_.py', "                
   "                if isinstance(value, Array) and value._dtype.name == self._dtype.name and value._dtype.bitlength == self._dtype.bitlength and value._dtype.scale == self._dtype.scale:\n                    new_data = value.data[:len(value) * self._dtype.bitlength]\n                else:\n                    new_data = BitArray()\n                    for x in value:\n                        new_data += self._create_element(x)\n                self.data[start * self._dtype.bitlength")
 S('XDT_equals_reordered', ['C14', 'C15'], 'array_.py', "            if self._dtype.scale != other._dtype.scale:\n                return False\n            if self.data != other.data:\n                return False\n            return True",
   "            return other._dtype.scale == self._dtype.scale and self.data == other.data")
+
+
+# ---- setters merged into a shared helper (H4/E4 look through one level of delegation)
+def _setle_refactor(keep_zero_check):
+    def fn(src):
+        a = ("    def _setuintle(self, uintle: int, length: Optional[int] = None) -> None:\n"
+             "        if length is None and hasattr(self, 'len') and len(self) != 0:\n            length = len(self)\n"
+             "        if length is None or length == 0:\n"
+             "            raise bitstring.CreationError(\"A non-zero length must be specified with a uintle initialiser.\")\n"
+             "        self._bitstore = bitstore_helpers.intle2bitstore(uintle, length, False)\n")
+        b = ("    def _setintle(self, intle: int, length: Optional[int] = None) -> None:\n"
+             "        if length is None and hasattr(self, 'len') and len(self) != 0:\n            length = len(self)\n"
+             "        if length is None or length == 0:\n"
+             "            raise bitstring.CreationError(\"A non-zero length must be specified with an intle initialiser.\")\n"
+             "        self._bitstore = bitstore_helpers.intle2bitstore(intle, length, True)\n")
+        if src.count(a) != 1 or src.count(b) != 1:
+            return None
+        test = "length is None or length == 0" if keep_zero_check else "length is None"
+        helper = ("    def _setle(self, i: int, length: Optional[int], signed: bool) -> None:\n"
+                  "        if length is None and hasattr(self, 'len') and len(self) != 0:\n            length = len(self)\n"
+                  f"        if {test}:\n"
+                  "            raise bitstring.CreationError(\"A non-zero length must be specified with an intle/uintle initialiser.\")\n"
+                  "        self._bitstore = bitstore_helpers.intle2bitstore(i, length, signed)\n\n"
+                  "    def _setuintle(self, uintle: int, length: Optional[int] = None) -> None:\n        self._setle(uintle, length, False)\n")
+        src = src.replace(a, helper)
+        return src.replace(b, "    def _setintle(self, intle: int, length: Optional[int] = None) -> None:\n        self._setle(intle, length, True)\n")
+    return fn
+
+
+S('H4_S_le_setters_share_helper', ['C02', 'C15', 'C18', 'C04', 'C09', 'C20'], 'bits.py', fn=_setle_refactor(True))
+V('E4_le_helper_drops_zero_check', ['C15'], 'bits.py', fn=_setle_refactor(False), expect=['E4'])
